@@ -1,7 +1,7 @@
 // C31: segment operations identify segments by instant.
 //
 // Engine B. For every (server time zone = time.Local, record path format, segment set) of a finite
-// alphabet the segment files are written with the recorder's naming (real recordstore.Path.Encode under
+// alphabet (the formats: one or more per class the configuration validator accepts, see recFormats) the segment files are written with the recorder's naming (real recordstore.Path.Encode under
 // that time.Local) into a private tree; a real api.API and a real playback.Server (both listening on unix
 // sockets in the private directory, nothing bypassed) are asked to
 //
@@ -197,6 +197,9 @@ var writings = []writing{
 }
 
 var clientOffsets = []int{0, 5*3600 + 1800, -8 * 3600, 14 * 3600}
+
+// the first four formats are the first-round alphabet (full query set in both tiers)
+const firstRoundFormats = 4
 
 func mustParse(s string) time.Time {
 	t, err := time.Parse(time.RFC3339Nano, s)
@@ -515,7 +518,11 @@ func main() {
 							continue
 						}
 						_, off := sf.listed.In(time.Local).Zone()
-						for _, o := range clientOffsets {
+						offs := clientOffsets
+						if fi >= firstRoundFormats && !r.Thorough() {
+							offs = clientOffsets[1:3] // quick tier, second-round formats: +05:30 and -08:00 only
+						}
+						for _, o := range offs {
 							if o != off {
 								addQ("no-segment:shifted-by-offset-difference", sf.listed.Add(time.Duration(off-o)*time.Second))
 								addQ("no-segment:shifted-by-offset-difference", sf.listed.Add(time.Duration(o-off)*time.Second))
@@ -557,7 +564,12 @@ func main() {
 							v.Set("start", ws)
 							st, body := get(apiC, http.MethodDelete, "http://api/v3/recordings/deletesegment?"+v.Encode())
 							r.Eval(1)
-							now := regularFiles(root)
+							now := map[string]bool{} // which files of the tree are still there
+							for p := range all {
+								if fi, err := os.Lstat(p); err == nil && fi.Mode().IsRegular() {
+									now[p] = true
+								}
+							}
 							var removed []string
 							for p := range all {
 								if !now[p] {
